@@ -86,7 +86,8 @@ class TOpt(T):
 
 
 class TRec(T):
-    def __init__(self, **fields):
+    def __init__(self, _cls="rec", **fields):
+        self.cls = _cls
         self.fields = fields
 
 
@@ -518,7 +519,7 @@ def fresh(ty, name, idx=(), assume=None):
             return _fresh_family(ty.elem, base, idx + (i,), assume)
         return VList(n, get=get, et=ty.elem)
     if isinstance(ty, TRec):
-        return VRec("rec", {k: fresh(t, name + "_" + k, idx, assume) for k, t in ty.fields.items()})
+        return VRec(ty.cls, {k: fresh(t, name + "_" + k, idx, assume) for k, t in ty.fields.items()})
     raise Unsupported("fresh value of type %r" % (ty,))
 
 
@@ -570,6 +571,8 @@ def _fresh_family(ty, base, idx, assume):
     if isinstance(ty, TOpt):
         isn = _fresh_family(BOOL, base + "_isnone", idx, assume).t
         return VOpt(isn, _fresh_family(ty.inner, base + "_val", idx, assume))
+    if isinstance(ty, TRec):
+        return VRec(ty.cls, {k: _fresh_family(t, "%s_%s" % (base, k), idx, assume) for k, t in ty.fields.items()})
     raise Unsupported("family of type %r" % (ty,))
 
 
